@@ -179,6 +179,7 @@ class Interp(object):
         self.opaque = 0
         self.unroll_limit = 300
         self.ffi_models = {}
+        self.ffi_default = None     # result of a native call without a model: unknown status (both outcomes) unless a row fixes it
         self.trace = False
 
     # ------------------------------------------------------------------
@@ -1736,7 +1737,7 @@ class Interp(object):
             mdl = self.ffi_models.get(f.name.rsplit(".", 1)[-1])
             if mdl is not None:
                 return mdl(self, args, kwargs, st, node)
-            return Unknown("int")
+            return Unknown("int") if self.ffi_default is None else self.ffi_default
         if isinstance(f, ABuiltin):
             mdl = self.extra_models.get(f.name)
             if mdl is None and f.name == "os.urandom":
@@ -1763,7 +1764,7 @@ class Interp(object):
             mdl = self.ffi_models.get(f.sym)
             if mdl is not None:
                 return mdl(self, args, kwargs, st, node)
-            return Unknown("int")
+            return Unknown("int") if self.ffi_default is None else self.ffi_default
         # unknown callee: it may mutate the containers it is given
         for a in list(args) + list(kwargs.values()):
             if isinstance(a, (dict, list, bytearray)):
